@@ -206,6 +206,24 @@ class Check(PropertyCheck):
     def replay(self, path):
         import json
         p = json.load(open(path))
+        if "operands_hex" in p:
+            import shutil
+            import subprocess
+            exe = vlib.build_lbzip2("rel")
+            root = os.path.join(self.work, "replay_multi")
+            shutil.rmtree(root, ignore_errors=True)
+            os.makedirs(root)
+            plains = [bytes.fromhex(h) for h in p["operands_hex"]]
+            names = ["f%d" % i for i in range(len(plains))]
+            for n, d in zip(names, plains):
+                open(os.path.join(root, n), "wb").write(d)
+            q = subprocess.run([exe] + list(p.get("args", [])) + ["-c", "--"] + names, cwd=root, stdout=subprocess.PIPE, stderr=subprocess.PIPE, timeout=120)
+            try:
+                ok = q.returncode == 0 and declib.libbz2_decode(q.stdout) == b"".join(plains)
+            except Exception:
+                ok = False
+            print("lbzip2 %s -c %s: exit %d, libbz2 decodes the concatenation to the operands: %s" % (" ".join(p.get("args", [])), names, q.returncode, ok))
+            return 0 if ok else 1
         if "input_hex" not in p:
             print(json.dumps(p.get("broken"), indent=1)[:3000])
             return 1
